@@ -850,6 +850,9 @@ func genSchedule(rng *rand.Rand, family string, depth int) *Schedule {
 			add(Step{A: "Send", P: "B", T: text})
 			add(Step{A: "Deliver", P: "A"})
 		}
+		// whoever reads the wire forges with every MAC key published so far (they are published because the
+		// key pairs they belong to are out of use: no forgery may be accepted)
+		add(Step{A: "ForgeDisclosed", P: "A"})
 		add(Step{A: "SMPStart", P: "A", S: 5, Q: true})
 		add(Step{A: "Deliver", P: "B"})
 		add(Step{A: "SMPAnswer", P: "B", S: 5})
@@ -857,6 +860,7 @@ func genSchedule(rng *rand.Rand, family string, depth int) *Schedule {
 			add(Step{A: "Deliver", P: "A"})
 			add(Step{A: "Deliver", P: "B"})
 		}
+		add(Step{A: "ForgeDisclosed", P: "A"})
 		add(Step{A: "ExtraKey", P: "B"})
 		add(Step{A: "Deliver", P: "A"})
 		add(Step{A: "Tick", P: "A"})
